@@ -95,10 +95,11 @@ def apply(t, op, others):
     if k == "shift":
         return t.editTimestamps(op[1], "silence")
     if k == "insert":
+        # 'replace' goes through the plain-tuple path with a whitespace-padded label (the public API accepts both)
         if len(op) == 4:
-            t.insertEntry(Interval(op[1], op[2], "n"), op[3], "silence")
+            t.insertEntry((op[1], op[2], " n\t") if op[3] == "replace" else Interval(op[1], op[2], "n"), op[3], "silence")
         else:
-            t.insertEntry(Point(op[1], "n"), op[2], "silence")
+            t.insertEntry((op[1], " n ") if op[2] == "replace" else Point(op[1], "n"), op[2], "silence")
         return t
     if k == "delete":
         t.deleteEntry(t.entries[op[1]])
